@@ -823,10 +823,16 @@ impl Harness {
 
     /// End of run: everything comes back, nothing is leaked.
     pub fn finish(mut self) {
-        if !violated() {
+        // Sometimes the queue goes away with chains still outstanding: its DMA memory must be
+        // returned all the same (the buffers of those chains stay shared: nobody consumed them).
+        let abandon = !violated() && !self.outstanding.is_empty() && flip(1, 4);
+        if abandon {
+            probe("queue_dropped_with_chains_outstanding");
+        }
+        if !violated() && !abandon {
             self.drain();
         }
-        if !violated() && !self.outstanding.is_empty() {
+        if !violated() && !abandon && !self.outstanding.is_empty() {
             violation("chains-never-completed", "finish", format!("{} chain(s) still outstanding after the device served everything it was notified about", self.outstanding.len()));
         }
         let q = self.c.qidx;
@@ -835,7 +841,7 @@ impl Harness {
         drop(self.q);
         with(|w| {
             if clean {
-                if !w.hal.shares.is_empty() {
+                if !abandon && !w.hal.shares.is_empty() {
                     let n = w.hal.shares.len();
                     w.violation("share-leak", "finish", format!("{n} buffer(s) still shared after every completion was consumed"));
                 }
@@ -959,6 +965,8 @@ pub fn blocking_history() {
     let mut p = Pair { t, q };
     let (t, q) = (&mut p.t, &mut p.q);
     let n_ops = 1 + choose(40);
+    // buffers of requests that are still with the device when the run ends
+    let mut stranded: Vec<Box<[u8]>> = Vec::new();
     for k in 0..n_ops {
         if violated() {
             break;
@@ -968,6 +976,27 @@ pub fn blocking_history() {
         if n_in + n_out > c.size {
             continue;
         }
+        let cost = |n: usize| if c.indirect && n > 1 { 1 } else { n };
+        // Sometimes another (non-blocking) request is already in flight when the blocking helper
+        // is called: the helper must still tell the device about its own request, and if the other
+        // completion arrives first it reports WrongToken and leaves everything as it is.
+        let mut bg: Option<(u16, Box<[u8]>)> = None;
+        if flip(1, 3) && q.available_desc() > cost(n_in + n_out) {
+            let mut b = mk_buf(1 + choose(16) as usize, 0xAB);
+            // SAFETY: `b` is kept until the request has been popped or the queue is gone.
+            let r = unsafe { q.add(&[], &mut [&mut b[..]]) };
+            match r {
+                Ok(tok) => {
+                    if q.should_notify() {
+                        t.notify(c.qidx);
+                    }
+                    oplog(|| format!("add (in flight during the blocking call) -> token {tok}"));
+                    bg = Some((tok, b));
+                }
+                Err(e) => violation("add-result", "add", format!("single-buffer add with free descriptors: {e:?}")),
+            }
+        }
+        let free_before = q.available_desc();
         let ins: Vec<Box<[u8]>> = (0..n_in).map(|i| mk_buf(1 + choose(32) as usize, (k as u8).wrapping_mul(7).wrapping_add(i as u8))).collect();
         let mut outs: Vec<Box<[u8]>> = (0..n_out).map(|_| mk_buf(1 + choose(32) as usize, 0xEE)).collect();
         let spins_before = with(|w| w.stats.spins);
@@ -977,8 +1006,39 @@ pub fn blocking_history() {
             q.add_notify_wait_pop(&i2, &mut o2, t)
         };
         oplog(|| format!("add_notify_wait_pop in={n_in} out={n_out} -> {r:?}"));
-        let (fifo, spins_after) = with(|w| (w.dq[c.qidx as usize].used_fifo.pop_front(), w.stats.spins));
-        match (r, fifo) {
+        let (front, spins_after) = with(|w| (w.dq[c.qidx as usize].used_fifo.front().copied(), w.stats.spins));
+        let other_first = matches!((&bg, front), (Some((tok, _)), Some((id, _))) if id == *tok as u32);
+        if other_first {
+            probe("blocking_call_overtaken");
+            if r != Err(Error::WrongToken) {
+                violation("blocking-result", "add_notify_wait_pop", format!("the other request (token {}) completed first; expected Err(WrongToken), got {r:?}", bg.as_ref().unwrap().0));
+            }
+            // nothing was consumed and the helper's own request is still outstanding
+            let free = q.available_desc();
+            // (with indirect descriptors available_desc() only tells full from not full)
+            if !c.indirect && free + cost(n_in + n_out) != free_before {
+                violation("free-count", "add_notify_wait_pop", format!("after WrongToken {free} descriptors are free; {free_before} were free before the call and its chain (still with the device) holds {}", cost(n_in + n_out)));
+            }
+            with(|w| w.check_no_lost_wakeup("blocking/overtaken"));
+            let (tok, mut b) = bg.take().unwrap();
+            // SAFETY: same buffer as passed to add.
+            let pr = unsafe { q.pop_used(tok, &[], &mut [&mut b[..]]) };
+            let l = front.unwrap().1;
+            if pr != Ok(l) {
+                violation("pop-result", "pop_used", format!("the overtaking request: pop_used({tok}) returned {pr:?}, device recorded {l}"));
+            }
+            with(|w| {
+                w.dq[c.qidx as usize].used_fifo.pop_front();
+            });
+            stranded.extend(ins);
+            stranded.extend(outs);
+            nontrivial();
+            break;
+        }
+        with(|w| {
+            w.dq[c.qidx as usize].used_fifo.pop_front();
+        });
+        match (r, front) {
             (Ok(len), Some((_, l))) => {
                 if len != l {
                     violation("pop-length", "add_notify_wait_pop", format!("returned {len}, device recorded {l}"));
@@ -989,9 +1049,26 @@ pub fn blocking_history() {
             }
             (r, f) => violation("blocking-result", "add_notify_wait_pop", format!("returned {r:?}, device completions: {f:?}")),
         }
+        if let Some((tok, mut b)) = bg.take() {
+            // the other request completes later: let the device finish and collect it
+            with(|w| w.drain_device());
+            let rec = with(|w| w.dq[c.qidx as usize].used_fifo.pop_front());
+            // SAFETY: same buffer as passed to add.
+            let pr = unsafe { q.pop_used(tok, &[], &mut [&mut b[..]]) };
+            match (pr, rec) {
+                (Ok(len), Some((id, l))) if id == tok as u32 && len == l => {}
+                (pr, rec) => {
+                    if !violated() {
+                        violation("pop-result", "pop_used", format!("request in flight during a blocking call: pop_used({tok}) returned {pr:?}, device recorded {rec:?}"));
+                    }
+                    stranded.push(b);
+                }
+            }
+        }
         op_point();
     }
     drop(p);
+    drop(stranded);
 }
 
 /// Sweep of the notification predicate (C05 a) - cheap enough to enumerate: the available index
